@@ -7,6 +7,60 @@ NOTES = ("Runtime monitoring only: every check runs the real rcgen code under ge
 NOT_APPLICABLE = {}
 
 CHECKS = {
+    "C06": dict(
+        technique="runtime monitoring: soundness oracle on every ACCEPTED input (OpenSSL verification over independently extracted CRI bytes and key) over base requests from rcgen and OpenSSL, exhaustive single-bit flips and structure-aware mutants; decode-back of the issued certificate",
+        text="Requests made by rcgen for every key family and by OpenSSL (P-384+SHA-256, P-256+SHA-384/512, RSA with SHA-1/224/384/512/SHA3, P-521, secp256k1, Ed448, RSA-1024, unsupported and unknown extensions, repeated subject attributes), every single-bit flip of selected requests, and tens of thousands of TLV-level and byte-level mutants are offered to from_der. For every accepted input the oracle re-extracts certificationRequestInfo, SubjectPublicKeyInfo and signature with its own tolerant reader and requires OpenSSL to verify; the request must not contain anything rcgen does not carry over; the certificate issued from it must embed the request's SPKI byte-for-byte and its subject / SAN / KU / EKU. Conservation: offered = accepted + rejected + panicked.",
+        design_ref="DESIGN.md 5/C06",
+        note="Rejections are never judged. The unsigned wrapper (outer SEQUENCE, AlgorithmIdentifier tag bits, trailing elements) is read as tolerantly as x509-parser reads it, because it does not touch signed bytes, key or signature.",
+    ),
+    "C10": dict(
+        technique="runtime monitoring: unwind observer (catch_unwind + panic-location hook), per-call watchdog, process-death attribution by marker file, over structure-aware mutation of a corpus made in the run and hostile parameter generators; ASan / Miri layers in the thorough tier",
+        text="Every parsing entry point (CA import DER/PEM, CSR DER/PEM, all nine private-key loaders x every algorithm, SPKI DER/PEM, string constructors, CIDR text, OID lookups) is fed the corpus (rcgen and OpenSSL certificates with every extension kind, multi-valued RDNs, CSRs, PKCS#8 v1/v2, SEC1, PKCS#1, SPKIs and their PEM texts), >100k TLV-level/byte-level mutants, PEM text mutants and random bytes; whatever a parser accepts is pushed on through self_signed / signed_by / serialize_request and the accessors. Every generation entry point is fed hostile values (non-ASCII in String fields, OID lists of any length/content, years -9999..=9999 with any offset, empty and huge vectors, arbitrary pre-encoded bytes, remote keys returning empty or giant signatures and public keys). A panic, a process killed by a signal (reproduced single-threaded and attributed by marker) is a violation keyed by entry point and panic location; a call exceeding 20 s is inconclusive.",
+        design_ref="DESIGN.md 5/C10",
+        note="The three documented panics (ACME digest length, serialising a remote key, impossible calendar date) are never requested. Non-termination is restated as a per-call wall budget.",
+    ),
+    "C11": dict(
+        technique="runtime monitoring: round-trip differential with OpenSSL as independent key decoder and signature verifier over every (key family x loading route x reload route) and every (key, requested algorithm, explicit loader) pair",
+        text="Fresh keys of every family (back-end generated, OpenSSL generated PKCS#8 v1, Ed25519 v1/v2, RSA 2048/3072/4096, aws: P-521, generated RSA, SEC1/PKCS#1) are loaded through all eight routes, saved by all three serialisers, reloaded through every route; public key (OpenSSL's reading of the private key), key type, algorithm, exported SPKI (bytes, curve / NULL parameters via derx, parse-back through SubjectPublicKeyInfo::from_der/pem) and a signature verified by OpenSSL under the ORIGINAL public key are compared. All mismatched (key, algorithm) pairs must return Err; fitting ones Ok. Algorithm ==/Hash/from_oid consistency over all pairs.",
+        design_ref="DESIGN.md 5/C11",
+        note="For RSA the hash is not a property of the key: auto-detecting routes are only required to yield an RSA algorithm.",
+    ),
+    "C12": dict(
+        technique="runtime monitoring: independent path validators (OpenSSL X509_verify_cert, webpki verify_for_usage) as judges of chains built by rcgen, expected verdict from an RFC 5280 section 6 model of the parameters",
+        text="Chains root -> [0..3 intermediates] -> leaf over directed single-dimension cases (CA flag variants x position, path length {none,0,1,2} x position x depth, 7 verification instants x 3 validity windows, permitted/excluded DNS subtrees x 7 leaf names x 2 positions, IPv4/IPv6 prefixes with addresses flipped at the last masked / first free bit, 8 leaf EKU sets x 2 purposes, 10 CA key-usage sets x 2 positions) and random multi-dimension cases; both validators must give the verdict the parameters imply.",
+        design_ref="DESIGN.md 5/C12",
+        note="Judge table: trust-anchor CA flag / path length / validity and CA key usage are judged by OpenSSL only (webpki does not evaluate them); the notAfter instant itself is judged by webpki only (OpenSSL treats it as expired).",
+    ),
+    "C14": dict(
+        technique="runtime monitoring: strict RFC 7468 decoder written from the RFC (own base64) as oracle, OpenSSL PEM readers as lenient cross-check, rcgen's own loaders for the round trip, over a byte-by-byte size sweep",
+        text="Certificates, CSRs and CRLs whose DER length grows one byte at a time over >= 160 consecutive lengths (small and large variants), private and public keys of every family and RSA size: label, 64-character lines, canonical padding, LF line ending, nothing before or after, payload equal to the DER accessor; loaders recover the same bytes. The residues of the DER lengths modulo 3 and 48 actually seen are recorded; a sweep missing a residue makes the run inconclusive.",
+        design_ref="DESIGN.md 5/C14",
+        note="Key sizes are discrete, so key PEMs cover only some residues mod 48 (reported in the evidence).",
+    ),
+    "C15": dict(
+        technique="runtime monitoring: recorded event log (case, phase, thread, round, process, hash of TBS, hash of output) checked online per process and offline across processes: all executions of a case agree; exactly-once accounting; fingerprints of shared keys/issuers before = after; TSan and Miri layers in the thorough tier",
+        text="A table of 200 (quick) / 2000 certificate, CSR and CRL parameter sets with fixed keys (names of 6-8 attributes, >= 3 EKUs in CSRs, every key-id method) is executed 3x back to back, again after unrelated API calls, then by 4 and 16 (thorough: 2..64) barrier-released threads sharing one set of KeyPairs and issuer Certificates, each in its own seeded order for several rounds, in 6 (thorough 18) fresh processes under both back ends. TBS bytes (complete output for Ed25519 / RSA) must be identical across all of it; returned params equal the input; shared keys and issuers report the same content afterwards. The number of executions of the same case that actually overlapped in time on different threads is measured and reported.",
+        design_ref="DESIGN.md 5/C15",
+        note="'For all schedules' is sampled; the evidence says how many overlapping same-case pairs were observed. Safe Rust excludes data races in rcgen itself; TSan/Miri watch the dependencies.",
+    ),
+    "C16": dict(
+        technique="runtime monitoring over a finite configuration space: cargo check of all 24 feature sets (+ CLI x 2) observed exhaustively; differential event logs of the same table under ring / aws-lc-rs / crypto-less builds joined offline; cross verification and key exchange files",
+        text="Every feature subset {none|ring|aws_lc_rs} x pem x x509-parser x zeroize of rcgen and both back ends of rustls-cert-gen is compiled from the working tree; a table of portable cases (explicit serial, pre-specified key ids) with the same keys is executed by the three harness builds (crypto-less: remote signer with the same public key) and the TBS hashes are joined per case; each crypto build verifies the other's artefacts with OpenSSL and re-parses its CSRs, and loads the keys the other build generated and exported (DER and PEM), comparing public key and algorithm.",
+        design_ref="DESIGN.md 5/C16",
+        note="The build clause is decided by observing the build tool on every member of the configuration space; flagged as the weakest fit for the family.",
+    ),
+    "C18": dict(
+        technique="runtime monitoring of the real binary: generated option sets, fresh directory per invocation, exit status / stderr / directory listing / strace of attempted creations, files judged by derx, pemx, OpenSSL and webpki",
+        text="rustls-cert-gen (both back ends) is run with every algorithm flag, 0..12 names mixing DNS / IPv4 / IPv6 (compressed, expanded, v4-mapped, IP look-alikes), ASCII / UTF-8 / empty / long CN, country and organisation, both purpose flags, base names with dots, spaces and UTF-8, existing / new / nested output directories. Valid sets: exit 0, exactly the four files, strict PEM, keys match certificates, chain validates under OpenSSL and webpki, CA is a CA with keyCertSign and cRLSign, end-entity carries exactly the names (IP literals as iPAddress), CN and purposes. Invalid sets (non-printable country, non-ASCII SAN, unsupported algorithm): non-zero exit, no panic, no file.",
+        design_ref="DESIGN.md 5/C18",
+        note="Known finding: base names X and X.key collide on X.key.pem (directed probe, reported as KNOWN-FINDING); near misses (X / X.keys, X.pem / X) are checked as ordinary valid sets.",
+    ),
+    "C19": dict(
+        technique="runtime monitoring: leak scanner (12-byte windows of the private components extracted by OpenSSL, searched raw and after decoding hex / decimal-list / base64 runs) with positive controls, over every public output and every error text reachable with a key",
+        text="For fresh keys of every family and back end: DER/PEM/Debug of certificates, CSRs and CRLs made with the key as subject and as issuer, exported public key in three forms, Debug of KeyPair / params / parsed SPKI / CSR params, and Display+Debug of every error obtained by feeding 12 variants of the key PEM (truncated, bit-flipped, relabelled, CRLF, key-then-cert bundle, SEC1 / PKCS#1 re-encodings) and 6 DER variants to every loader and parser under every algorithm (about 200 diagnostics per key). The scanner must find the secret in serialize_der / serialize_pem / hex / decimal / shifted base64 controls, otherwise the run is inconclusive.",
+        design_ref="DESIGN.md 5/C19",
+        note="False-positive probability per comparison about 2^-96. String-type constructors are not key parsers and are not fed key texts.",
+    ),
     "C01": dict(
         technique="runtime monitoring: differential oracle (OpenSSL EVP_DigestVerify over the TBS bytes cut out by an independent DER reader), recording remote signer, fault injection at every sign call",
         text="Certificates (self-signed, issuer-signed, three public-key sources), CSRs and CRLs from enumerated and random parameter sets are produced with every pool key (RSA 2048-4096 x SHA-256/384/512, P-256/384/521, Ed25519; generated by the back end, by OpenSSL, loaded through every entry point; local and remote) under ring and aws-lc-rs. For each artefact the to-be-signed bytes are cut out with derx and the signature is verified by OpenSSL under the signer's SubjectPublicKeyInfo; inner/outer AlgorithmIdentifier bytes are compared with a table transcribed from the RFCs; recording remote signers must have been asked exactly once for exactly those bytes; a remote signer failing at its n-th call must produce Err and no artefact.",
